@@ -3,15 +3,14 @@
 //! Manuals:
 //! * <https://man7.org/linux/man-pages/man7/io_uring.7.html>
 
-use std::cmp::min;
-use std::mem::{drop as unlock, swap, take};
+use std::mem::{drop as unlock, take};
 use std::os::fd::{AsRawFd, OwnedFd, RawFd};
 use std::sync::Mutex;
 use std::sync::atomic::{AtomicU32, Ordering};
 use std::time::Duration;
 use std::{ptr, task};
 
-use crate::{PollingState, asan, lock, syscall, try_lock};
+use crate::{PollingState, asan, syscall, try_lock};
 
 pub(crate) mod config;
 pub(crate) mod cq;
@@ -219,21 +218,14 @@ impl Shared {
             // No futures to wake up.
             return;
         }
-        let mut wakers = take(&mut *blocked_futures);
+        let wakers = take(&mut *blocked_futures);
         unlock(blocked_futures); // Unblock others.
-        let awoken = min(available, wakers.len());
-        for waker in wakers.drain(..awoken) {
-            log::trace!(waker:?; "waking up future for submission");
-            waker.wake();
-        }
-
-        // Reuse allocation.
-        let mut blocked_futures = lock(&self.blocked_futures);
-        swap(&mut *blocked_futures, &mut wakers);
-        // Add back any wakers for which we don't have a slot.
-        let awoken = min(available - awoken, wakers.len());
-        blocked_futures.extend(wakers.drain(wakers.len() - awoken..));
-        unlock(blocked_futures); // Unblock others.
+        // NOTE: we wake all futures, not just as many as there are slots
+        // available. The list can hold wakers that no longer need a slot, e.g.
+        // of a future that was dropped or that was polled again (with a
+        // different waker) while waiting. Waking only `available` wakers can
+        // hand all slots to those, leaving a future that does need one waiting
+        // forever. Futures for which no slot is left will wait again.
         for waker in wakers {
             log::trace!(waker:?; "waking up future for submission");
             waker.wake();
